@@ -16,6 +16,8 @@ import AfkakProofs.BrokerClient.ConnStream
 import AfkakProofs.BrokerClient.ChunkSplit
 import AfkakProofs.BrokerClient.BootOnce
 import AfkakProofs.BrokerClient.Genuine
+import AfkakProofs.BrokerClient.Bytes
+import AfkakProofs.BrokerClient.BytesConn
 import AfkakProps.Open.C06
 /-!
 # C06 — each request completes exactly once, with the response bearing its own id
@@ -694,6 +696,127 @@ example : (Bootstrap.trace Bootstrap.St.init [.request [0, 3, 0, 0, 0, 0, 0, 2],
     (fun t => !t.2.contains .lose) = true := by decide
 example : Bootstrap.respCid [0, 0, 0, 2, 0x44] = Bootstrap.reqCid [0, 3, 0, 0, 0, 0, 0, 2] := by decide
 
+
+/-! ## Framing × broker client, on raw bytes, per connection (`Afkak/BrokerClientBytes.lean`)
+
+The per-connection fold `lstep` cuts a trace into one log per connection — ALL the bytes that connection's protocol was
+handed, as one string, and the `ok` firings while it was current — and checks every `dataReceived` against the framing
+loop run ONCE over that whole string (`parseAll`).  It knows nothing of `_unprocessed`, of the request table or of how the
+bytes were cut. -/
+section Bytes
+open Afkak.BrokerClientBytes
+
+/-- Whatever trace the C06 monitor accepts — the model's or one recorded from the real `_KafkaBrokerClient` — passes the
+    whole-stream per-connection check (pure reasoning about the two monitors; no model state involved). -/
+theorem C06_bytes_of_accepted (tr : List (Ev × List Ob)) (h : accepts tr = true) : bytesOk tr = true :=
+  bytesOk_of_accepts tr h
+
+/-- … so every trace of the model does: any event list (make/cancel/close/disconnect/lost/connect results/clock in any
+    interleaving with the bytes), any chunking, any retry policy. -/
+theorem C06_bytes_monitor_sound (cfg : Cfg) (host port : Nat) (evs : List Ev) :
+    bytesOk (trace cfg (St.init host port) evs) = true :=
+  bytesOk_of_accepts _ (C06_monitor_sound cfg host port evs)
+
+/-- What `bytesOk` MEANS, for any trace whatsoever (no model, no other monitor): every `ok` firing of the trace is
+    recorded, in order, in the log of the connection that was current; every payload a Deferred fired with on a
+    connection is one of the frames of the parse — from its start, in one go — of the bytes THAT connection received
+    (so never bytes of an earlier connection, never bytes read from a misaligned position, never anything at or after an
+    over-long prefix, where that parse stops), and its first four bytes are the request's correlation id; and a connection
+    whose byte stream reaches an over-long prefix has been dropped. -/
+theorem C06_bytes_meaning (tr : List (Ev × List Ob)) (h : bytesOk tr = true) :
+    tr.flatMap (fun t => okFires t.2) = (connLogs tr).flatMap (·.oks) ∧
+    ∀ g ∈ connLogs tr,
+      (∀ x ∈ g.oks, x.2.2 ∈ (parseAll g.bytes).frames ∧ corrId x.2.2 = some x.2.1) ∧
+      ((parseAll g.bytes).exceeded = true → g.dropped = true) :=
+  bytesOk_meaning tr h
+
+/-- C06 sentences 1+2 end to end on raw bytes, for every event list of the model: each Deferred fires at most once
+    (`firedOf`: all firings, of any kind), and a Deferred that fires with response bytes does so with a frame of the
+    whole-stream parse of the bytes of the connection it was answered on, carrying its correlation id. -/
+theorem C06_bytes_end_to_end (cfg : Cfg) (host port : Nat) (evs : List Ev) :
+    let tr := trace cfg (St.init host port) evs
+    (firedOf tr).Nodup ∧
+    tr.flatMap (fun t => okFires t.2) = (connLogs tr).flatMap (·.oks) ∧
+    ∀ g ∈ connLogs tr,
+      (∀ x ∈ g.oks, x.2.2 ∈ (parseAll g.bytes).frames ∧ corrId x.2.2 = some x.2.1) ∧
+      ((parseAll g.bytes).exceeded = true → g.dropped = true) := by
+  intro tr
+  obtain ⟨h1, h2⟩ := C06_bytes_meaning tr (C06_bytes_monitor_sound cfg host port evs)
+  exact ⟨C06_at_most_once cfg host port evs, h1, h2⟩
+
+/-- non-vacuity: connection 0 is lost inside the reply to request 5 (7 of 8 bytes in); on connection 1 the reply arrives
+    cut in two, followed by an over-long prefix.  Two logs; the payload is a frame of connection 1's bytes alone. -/
+example : connLogs (trace ⟨fun _ => 1⟩ (St.init 1 9092)
+      [.make 5 true, .connOk, .bytesIn [0, 0, 0, 4, 0, 0, 0], .lost, .connOk, .bytesIn [0, 0, 0, 4, 0, 0],
+       .bytesIn [0, 5, 0x80, 0, 0, 0, 9]]) =
+    [⟨0, [0, 0, 0, 4, 0, 0, 0], [], false⟩, ⟨1, [0, 0, 0, 4, 0, 0, 0, 5, 0x80, 0, 0, 0, 9], [(0, 5, [0, 0, 0, 5])], true⟩] := by
+  decide +kernel
+example : (parseAll [0, 0, 0, 4, 0, 0, 0, 5, 0x80, 0, 0, 0, 9]).frames = [[0, 0, 0, 5]] ∧
+    (parseAll [0, 0, 0, 4, 0, 0, 0, 5, 0x80, 0, 0, 0, 9]).exceeded = true := by decide +kernel
+/-- the fold does reject: a Deferred fired with bytes that are no frame of its connection's stream (here: the stale
+    bytes of connection 0 prepended), and a firing outside a `dataReceived` -/
+example : bytesOk [(.connOk, []), (.bytesIn [0, 0, 0, 4, 0, 0, 0], []), (.lost, []), (.connOk, []),
+      (.bytesIn [5, 0, 0, 0], [.fire 0 5 (.ok [0, 0, 0, 5])])] = false := by decide +kernel
+example : bytesOk [(.connOk, []), (.lost, [.fire 0 5 (.ok [0, 0, 0, 5])])] = false := by decide +kernel
+
+/-- "A frame split across a connection loss never leaks into the next connection": in ANY state with a readable
+    connection, a chunk that completes no packet and announces no over-long one (a partial frame) followed by the loss of
+    the connection is observably and in its effect on the state exactly the loss alone — so every continuation (the
+    reconnect, the re-sent requests, the bytes of the next connection) runs as if the partial frame had never arrived. -/
+theorem C06_bytes_partial_frame_dies (cfg : Cfg) (s : St) (c : Nat) (chunk : Bytes) (hp : s.proto = some c) (hl : s.losing = false)
+    (hf : (feed s.rbuf chunk).frames = []) (hx : (feed s.rbuf chunk).exceeded = false) (post : List Ev) :
+    (step cfg s (.bytesIn chunk)).2 = [] ∧
+    (step cfg (step cfg s (.bytesIn chunk)).1 .lost).2 = (step cfg s .lost).2 ∧
+    trace cfg (run cfg s [.bytesIn chunk, .lost]) post = trace cfg (run cfg s [.lost]) post := by
+  obtain ⟨h1, h2⟩ := partial_frame_dies cfg s c chunk hp hl hf hx
+  refine ⟨h1, by rw [h2], ?_⟩
+  simp only [run]
+  rw [h2]
+
+example : let s := run ⟨fun _ => 1⟩ (St.init 1 9092) [.make 5 true, .connOk]
+    s.proto = some 0 ∧ s.losing = false ∧ (feed s.rbuf [0, 0, 0, 4, 0, 0, 0]).frames = [] ∧
+    (feed s.rbuf [0, 0, 0, 4, 0, 0, 0]).exceeded = false := by decide +kernel
+
+/-- "An oversize prefix ends that connection without delivering anything after it": in ANY state with a readable
+    connection, a chunk with which the stream reaches an over-long prefix gets `loseConnection()` called (or, if an
+    earlier packet of the same chunk was too short to carry an id, the exception drops the connection), and from then
+    on, whatever happens — more bytes, requests, cancels, timers, close — no Deferred fires with response bytes until a
+    NEW connection has been established.  (What the chunk delivered BEFORE the prefix is `C06_oversize`.) -/
+theorem C06_bytes_oversize_ends_connection (cfg : Cfg) (s : St) (c : Nat) (chunk : Bytes) (hp : s.proto = some c)
+    (hl : s.losing = false) (hx : (feed s.rbuf chunk).exceeded = true) (es : List Ev) (hes : Ev.connOk ∉ es) :
+    (Ob.lose c ∈ (step cfg s (.bytesIn chunk)).2 ∨ Ob.raiseUnderflow ∈ (step cfg s (.bytesIn chunk)).2) ∧
+    ∀ t ∈ trace cfg (step cfg s (.bytesIn chunk)).1 es, ∀ k i b, Ob.fire k i (.ok b) ∉ t.2 := by
+  obtain ⟨h1, h2⟩ := oversize_deaf cfg s c chunk hp hl hx
+  exact ⟨h2, fun t ht => deaf_trace cfg es _ h1 hes t ht⟩
+
+example : let s := run ⟨fun _ => 1⟩ (St.init 1 9092) [.make 5 true, .connOk]
+    s.proto = some 0 ∧ s.losing = false ∧ (feed s.rbuf [0x80, 0, 0, 0]).exceeded = true := by decide +kernel
+
+/-- "A response is never delivered to a different request", counted: in every reachable state one `dataReceived` fires
+    no more Deferreds with response bytes than it completed packets — a packet fires at most one Deferred. -/
+theorem C06_bytes_one_per_frame (cfg : Cfg) (host port : Nat) (evs : List Ev) (c : Nat) (chunk : Bytes) :
+    let s := run cfg (St.init host port) evs
+    s.proto = some c → s.losing = false →
+    (okFires (step cfg s (.bytesIn chunk)).2).length ≤ (feed s.rbuf chunk).frames.length := by
+  intro s hp hl
+  have hs : SInv s := sinv_run cfg (St.init host port) evs (sinv_init host port)
+  rw [step_bytesIn cfg s c chunk hp hl]
+  have h := oks_le_frames (feed s.rbuf chunk).frames s hs
+  have hl0 : ∀ s' : St, okFires (lostStep s').2 = [] := by
+    intro s'
+    simp only [lostStep, connect_, tryConnect]
+    split
+    · rfl
+    · split <;> rfl
+  simp only [bytesStep]
+  split
+  · rw [okFires_append, hl0, List.append_nil]; exact h
+  · split
+    · rw [okFires_append]; simpa [okFires] using h
+    · exact h
+
+end Bytes
+
 /-! Non-vacuity: a run in which Deferreds do fire — one by its own response (delivered in two
 chunks, after an unsolicited frame), one by cancel, one by close — and a late response to the
 cancelled request fires nothing. -/
@@ -765,6 +888,13 @@ C06_reentrant_partition
 C06_reentrant
 C06_reentrant_fuel_free
 C06_reentrant_driver
+C06_bytes_of_accepted
+C06_bytes_monitor_sound
+C06_bytes_meaning
+C06_bytes_end_to_end
+C06_bytes_partial_frame_dies
+C06_bytes_oversize_ends_connection
+C06_bytes_one_per_frame
 -/
 /- OPEN_STATEMENTS
 C06_bootstrap_no_crosstalk
